@@ -7,7 +7,7 @@ Property theorems only. Models: `Model/MappedWrite.lean` (A: `MappedWrite`, `Tee
 *as it is after the minimal fix of D5*: the remainder is flushed on drop/unwrap only when non-empty) and `Model/Pipes.lean`
 (B: child script, two bounded pipes, one copier thread per stream, of command.rs). Specification:
 `Spec/Streaming.lean` (whole-input split at markers; per-stream bytes of a script; the input of a sequence of `write` and
-`flush` calls).
+`flush` calls; a child's life with closes and pauses, `mustBeRunningAtReturn`).
 
 `flush()` is part of the op alphabet of model A (`MappedWrite::flush` / `TeeWrite::flush` only forward, the pending buffer is
 kept): a copier that flushes the supplied writer after every pipe read, or a caller who flushes for a live view, must not turn
@@ -203,5 +203,42 @@ theorem sequential_variant_deadlocks :
 example : runFirst codeMode 1 100 (init [(true, [1, 2]), (false, [3])]) = finalOf [(true, [1, 2]), (false, [3])] := by decide
 example : Reachable codeMode 1 (init [(true, [1, 2])]) (init [(true, [1, 2])]) := Reachable.refl
 example : measure (init [(true, [1, 2]), (false, [3])]) = 10 := by decide
+
+/-! ## B′. the return point: stream close, not child exit -/
+
+/-- **Tie to the source, return point.** Neither `spawn_and_write_streams` nor any function of command.rs it mentions
+(`write_child_process_output`, `join_and_unwind_panic`, `unwind_panic`, …) calls `wait` / `try_wait` / `wait_with_output`
+(regenerated from command.rs on every run): the call hands the `Child` back right after the copier threads are joined. -/
+theorem spawn_does_not_wait_for_exit : Gen.Sites.spawnWaitCalls = [] := by decide
+
+/-- **M5 (returns once both streams close).** For every behaviour of the child — any order of the two closes, anything after them —
+at any moment `pre` of its life at which it has closed both streams, `spawn_and_write_streams` has returned; in particular, if the
+exit comes after both closes (`CEv.exit ∉ pre`), the return precedes the exit: the child is handed back running. Under the same
+history `output_and_write_streams` (which returns the exit status) has not returned. -/
+theorem spawn_returns_at_stream_close (pre : List CEv) (ho : CEv.close false ∈ pre) (he : CEv.close true ∈ pre) :
+    returned spawnProg pre = true ∧ (CEv.exit ∉ pre → returned outputProg pre = false) := by
+  have hp : spawnProg = [.joinCopier false, .joinCopier true] := by simp [spawnProg, spawn_does_not_wait_for_exit]
+  refine ⟨?_, fun hx => ?_⟩
+  · simp [hp, returned, enabledAfter, ho, he]
+  · simp [outputProg, hp, returned, enabledAfter, hx]
+
+/-- … and not earlier: while a stream is still open (and the child alive) the call has not returned — bytes written to that stream
+later are still delivered (`delivery`). -/
+theorem spawn_does_not_return_before_close (pre : List CEv) (st : Bool) (hc : CEv.close st ∉ pre) (hx : CEv.exit ∉ pre) :
+    returned spawnProg pre = false := by
+  have hp : spawnProg = [.joinCopier false, .joinCopier true] := by simp [spawnProg, spawn_does_not_wait_for_exit]
+  cases st <;> simp [hp, returned, enabledAfter, hc, hx]
+
+/-- **The statement discriminates.** The variant that waits for the exit before handing the child back has not returned at any
+moment before the exit, however long ago both streams were closed. -/
+theorem waiting_variant_returns_only_after_exit (pre : List CEv) (hx : CEv.exit ∉ pre) : returned spawnProgWaiting pre = false := by
+  simp [spawnProgWaiting, returned, enabledAfter, hx]
+
+/-- non-vacuity: a daemon-like child (closes stdout, then stderr, exits later) -/
+example : returned spawnProg [.close false, .close true] = true ∧ returned spawnProg [.close false] = false ∧
+    returned outputProg [.close false, .close true] = false ∧ returned outputProg [.close false, .close true, .exit] = true ∧
+    returned spawnProgWaiting [.close false, .close true] = false := by decide
+example : mustBeRunningAtReturn [(0, .write false [1]), (0, .close false), (100, .write true [2]), (0, .close true), (1500, .idle)] = some true := by decide
+example : mustBeRunningAtReturn [(0, .write false [1]), (0, .close false), (1500, .idle)] = none := by decide
 
 end CnbVerif.C19
